@@ -134,6 +134,14 @@ type Features struct {
 	LongKey        int
 	Enumerations   int
 	Steps          int
+	BGetRotated    int // Batch.Get served from a rotated (older) file
+	BGetActive     int // Batch.Get served from the database, active file
+	BGetStaged     int
+	BatchRepeat    int // batch touching one key more than once
+	BPutAfterDel   int // Batch.Put of a key the same batch deleted before
+	MidBatchFlush  int // the batch caused a rotation before its Commit returned
+	PostCommit     int
+	EmptyBatch     int
 	dirtySince     map[string]bool // events since last reopen
 }
 
@@ -154,6 +162,7 @@ type Runner struct {
 
 	batchKeys map[string]bool
 	plainKeys map[string]bool
+	keyFile   map[string]int // number of data files when the key's live record was written
 	everDel   bool
 
 	// optional behaviours
@@ -173,7 +182,7 @@ func NewRunner(property string, opt Opt, io *IOLog) (*Runner, *Fail) {
 	r := &Runner{
 		Env: e, Stats: StatsFor(property), Opt: opt, IO: io,
 		Model: map[string][]byte{}, Probe: map[string]struct{}{},
-		batchKeys: map[string]bool{}, plainKeys: map[string]bool{},
+		batchKeys: map[string]bool{}, plainKeys: map[string]bool{}, keyFile: map[string]int{},
 	}
 	r.F.ReopenAfter = map[string]int{}
 	r.F.dirtySince = map[string]bool{}
@@ -437,6 +446,9 @@ func (r *Runner) modelPut(key, val []byte, batch bool) {
 	r.Model[ks] = val
 	delete(r.Probe, ks)
 	r.F.Puts++
+	if r.DB != nil {
+		r.keyFile[ks] = r.DB.Stat().DataFileNum
+	}
 	if batch {
 		r.batchKeys[ks] = true
 		if r.plainKeys[ks] {
@@ -790,6 +802,8 @@ func (r *Runner) checkFoldSilently() *Fail {
 }
 
 func (r *Runner) execBatch(op *Op) (touched [][]byte, global bool, fail *Fail) {
+	filesBefore := r.DB.Stat().DataFileNum // before NewBatch: the batch holds the database lock
+	before := r.ActiveOffset()
 	b := r.DB.NewBatch(kv.BatchOptions{Sync: op.Sync})
 	committed := false
 	defer func() {
@@ -804,7 +818,7 @@ func (r *Runner) execBatch(op *Op) (touched [][]byte, global bool, fail *Fail) {
 	overlay := map[string][]byte{} // staged puts
 	deleted := map[string]bool{}   // staged deletes
 	order := []Op{}
-	before := r.ActiveOffset()
+	seenKeys := map[string]int{}
 	for i := range op.Ops {
 		s := &op.Ops[i]
 		switch s.K {
@@ -818,8 +832,12 @@ func (r *Runner) execBatch(op *Op) (touched [][]byte, global bool, fail *Fail) {
 				return nil, false, failf("batch-put-error", "Batch.Put(%q, %d bytes) = %v", s.Key, s.VLen, err)
 			}
 			overlay[string(s.Key)] = val
+			if deleted[string(s.Key)] {
+				r.F.BPutAfterDel++
+			}
 			delete(deleted, string(s.Key))
 			order = append(order, *s)
+			seenKeys[string(s.Key)]++
 		case "bdel":
 			k, _ := r.in(s.Key, nil)
 			err := b.Delete(k)
@@ -831,6 +849,7 @@ func (r *Runner) execBatch(op *Op) (touched [][]byte, global bool, fail *Fail) {
 			delete(overlay, string(s.Key))
 			deleted[string(s.Key)] = true
 			order = append(order, *s)
+			seenKeys[string(s.Key)]++
 		case "bget":
 			k, _ := r.in(s.Key, nil)
 			got, err := b.Get(k)
@@ -844,8 +863,17 @@ func (r *Runner) execBatch(op *Op) (touched [][]byte, global bool, fail *Fail) {
 			present := false
 			if v, ok := overlay[string(s.Key)]; ok {
 				want, present = v, true
+				r.F.BGetStaged++
 			} else if !deleted[string(s.Key)] {
 				want, present = r.Model[string(s.Key)]
+				if present {
+					// measured, not assumed: did a rotation happen since the live record was written?
+					if r.keyFile[string(s.Key)] < filesBefore {
+						r.F.BGetRotated++
+					} else {
+						r.F.BGetActive++
+					}
+				}
 			}
 			if present {
 				if err != nil {
@@ -884,6 +912,18 @@ func (r *Runner) execBatch(op *Op) (touched [][]byte, global bool, fail *Fail) {
 	if err != nil {
 		return nil, false, failf("commit-error", "Commit() = %v", err)
 	}
+	for _, n := range seenKeys {
+		if n > 1 {
+			r.F.BatchRepeat++
+			break
+		}
+	}
+	if r.DB.Stat().DataFileNum > filesBefore {
+		r.F.MidBatchFlush++
+	}
+	if len(op.Ops) == 0 {
+		r.F.EmptyBatch++
+	}
 	// a batch is one mutation of the model, applied in issue order
 	for i := range order {
 		s := &order[i]
@@ -914,6 +954,7 @@ func (r *Runner) execBatch(op *Op) (touched [][]byte, global bool, fail *Fail) {
 			continue
 		}
 		r.tr("post %s %s", p, ErrName(err))
+		r.F.PostCommit++
 		if !errors.Is(err, kv.ErrBatchCommitted) {
 			return nil, true, failf("committed-batch-usable", "%s on a committed batch returned %v, want ErrBatchCommitted", p, err)
 		}
@@ -1058,6 +1099,14 @@ func (r *Runner) AddLabels() {
 	lab(r.F.EmptyKeyOps > 0, "empty-key-op")
 	lab(r.F.LongKey > 0, "long-key")
 	lab(r.F.Enumerations > 0, "enumeration")
+	lab(r.F.BGetRotated > 0, "batch-get-falls-through-to-rotated-file")
+	lab(r.F.BGetActive > 0, "batch-get-falls-through-to-active-file")
+	lab(r.F.BGetStaged > 0, "batch-get-staged")
+	lab(r.F.BatchRepeat > 0, "batch-repeated-key")
+	lab(r.F.BPutAfterDel > 0, "batch-put-after-delete")
+	lab(r.F.MidBatchFlush > 0, "batch-rotated-before-commit-returned")
+	lab(r.F.PostCommit > 0, "post-commit-call")
+	lab(r.F.EmptyBatch > 0, "empty-batch")
 	for k, n := range r.F.ReopenAfter {
 		lab(n > 0, "reopen-after-"+k)
 	}
